@@ -137,17 +137,18 @@ def discharge(law: Law, shape, pid: str, replay_ref: str) -> Ob:
         return Ob(name, FAULT, "symx", (time.time() - t0) * 1000,
                   f"harness error on generic inputs: {type(e).__name__}: {e}\n{traceback.format_exc()[-600:]}")
     if case.raises is not None:
+        rname = getattr(case.raises, "__name__", None) or "|".join(getattr(c, "__name__", str(c)) for c in case.raises)
         try:
             case.thunk()
         except case.raises as e:
             return Ob(name, PROVED, "exec-generic", (time.time() - t0) * 1000, f"raises {type(e).__name__}")
         except Exception as e:
             ob = Ob(name, REFUTED, "exec-generic", (time.time() - t0) * 1000,
-                    f"expected {case.raises.__name__}, got {type(e).__name__}: {e}", _shape_str(shape))
+                    f"expected {rname}, got {type(e).__name__}: {e}", _shape_str(shape))
             ob.replay = {"reproduced": True, "script": _replay_script(replay_ref, law.name, shape, None)}
             return ob
         ob = Ob(name, REFUTED, "exec-generic", (time.time() - t0) * 1000,
-                f"expected {case.raises.__name__}, call returned normally", _shape_str(shape))
+                f"expected {rname}, call returned normally", _shape_str(shape))
         ob.replay = {"reproduced": True, "script": _replay_script(replay_ref, law.name, shape, None)}
         return ob
     residuals = [sp.sympify(r) for r in case.residuals]
@@ -287,7 +288,7 @@ def replay_law(replay_ref: str, law_name: str, shape, pt):
         except case.raises:
             print("raises as the contract says")
             return
-        raise AssertionError(f"{law_name} shape {shape}: expected {case.raises.__name__}")
+        raise AssertionError(f"{law_name} shape {shape}: expected {getattr(case.raises, '__name__', case.raises)}")
     pt = {k: (int(v) if k == "__seed__" else sp.Rational(v)) for k, v in pt.items()}
     ok, vals = eval_case_at(law, shape, pt)
     print("inputs", pt)
